@@ -24,28 +24,44 @@ pub fn hist_sizes(thorough: bool) -> Vec<usize> {
     v
 }
 
-/// The operation alphabet at a state with the given live slots.
-/// `rich`: calloc also with the larger alignments.
-pub fn next_ops(live: &[bool; 3], sizes: &[usize], rich: bool, out: &mut Vec<Op>) {
+/// The operation alphabet of the history enumerators.
+#[derive(Clone, Debug)]
+pub struct Alpha {
+    pub sizes: Vec<usize>,
+    pub calloc_sizes: Vec<usize>,
+    pub calloc_aligns: Vec<usize>,
+}
+impl Alpha {
+    pub fn new(sizes: &[usize]) -> Alpha {
+        Alpha { sizes: sizes.to_vec(), calloc_sizes: sizes.to_vec(), calloc_aligns: vec![8] }
+    }
+    pub fn describe(&self) -> String {
+        format!(
+            "malloc(s,a) a in {{8,64,4096}}, calloc(s',a') s' in {:?} a' in {:?}, realloc(live slot, s), free(live slot), s in {:?}",
+            self.calloc_sizes, self.calloc_aligns, self.sizes
+        )
+    }
+}
+
+/// The operations possible at a state with the given live slots.
+pub fn next_ops(live: &[bool; 3], al: &Alpha, out: &mut Vec<Op>) {
     out.clear();
     let nlive = live.iter().filter(|x| **x).count();
     if nlive < 3 {
-        for &s in sizes {
+        for &s in &al.sizes {
             for a in [8usize, 64, 4096] {
                 out.push(Op::Malloc { size: s, align: a });
             }
         }
-        for &s in sizes {
-            out.push(Op::Calloc { size: s, align: 8 });
-            if rich {
-                out.push(Op::Calloc { size: s, align: 64 });
-                out.push(Op::Calloc { size: s, align: 4096 });
+        for &s in &al.calloc_sizes {
+            for &a in &al.calloc_aligns {
+                out.push(Op::Calloc { size: s, align: a });
             }
         }
     }
     for (slot, l) in live.iter().enumerate() {
         if *l {
-            for &s in sizes {
+            for &s in &al.sizes {
                 out.push(Op::Realloc { slot, size: s });
             }
         }
@@ -69,19 +85,19 @@ pub fn apply_live(live: &mut [bool; 3], op: Op) {
 }
 
 /// Every history of exactly `depth` operations (all shorter ones are its prefixes) that extends `prefix`.
-pub fn for_each_history(prefix: &[Op], depth: usize, sizes: &[usize], rich: bool, f: &mut dyn FnMut(&[Op])) {
-    fn rec(h: &mut Vec<Op>, live: [bool; 3], depth: usize, sizes: &[usize], rich: bool, f: &mut dyn FnMut(&[Op])) {
+pub fn for_each_history(prefix: &[Op], depth: usize, al: &Alpha, f: &mut dyn FnMut(&[Op])) {
+    fn rec(h: &mut Vec<Op>, live: [bool; 3], depth: usize, al: &Alpha, f: &mut dyn FnMut(&[Op])) {
         if h.len() == depth {
             f(h);
             return;
         }
         let mut ops = Vec::new();
-        next_ops(&live, sizes, rich, &mut ops);
+        next_ops(&live, al, &mut ops);
         for op in ops {
             let mut l2 = live;
             apply_live(&mut l2, op);
             h.push(op);
-            rec(h, l2, depth, sizes, rich, f);
+            rec(h, l2, depth, al, f);
             h.pop();
         }
     }
@@ -90,12 +106,12 @@ pub fn for_each_history(prefix: &[Op], depth: usize, sizes: &[usize], rich: bool
         apply_live(&mut live, op);
     }
     let mut h = prefix.to_vec();
-    rec(&mut h, live, depth.max(prefix.len()), sizes, rich, f);
+    rec(&mut h, live, depth.max(prefix.len()), al, f);
 }
 
-pub fn prefixes(len: usize, sizes: &[usize], rich: bool) -> Vec<Vec<Op>> {
+pub fn prefixes(len: usize, al: &Alpha) -> Vec<Vec<Op>> {
     let mut v = Vec::new();
-    for_each_history(&[], len, sizes, rich, &mut |h| v.push(h.to_vec()));
+    for_each_history(&[], len, al, &mut |h| v.push(h.to_vec()));
     v
 }
 
@@ -111,21 +127,27 @@ fn involves_large(h: &[Op]) -> bool {
 
 pub fn hist(args: &Args) -> Report {
     let th = args.thorough;
-    let sizes = hist_sizes(th);
-    let depth: usize = std::env::var("H_ALLOC_DEPTH").ok().and_then(|s| s.parse().ok()).unwrap_or(if th { 5 } else { 3 });
-    // one more level over a reduced alphabet (the sizes that reach the small bins, the tree bins, a fresh segment and the trim path)
-    let deep_sizes: Vec<usize> = if th { vec![24, 1000, 70_000, 3 * MIB] } else { vec![24, 1000, 70_000, 3 * MIB] };
-    let deep_depth = depth + 1;
+    let mut al = Alpha::new(&hist_sizes(th));
+    if th {
+        al.calloc_aligns = vec![8, 64, 4096];
+    }
+    let depth: usize = std::env::var("H_ALLOC_DEPTH").ok().and_then(|s| s.parse().ok()).unwrap_or(if th { 4 } else { 3 });
+    // deeper over a reduced alphabet: sizes that reach the small bins, the tree bins, a fresh segment and the trim path
+    let mut deep = Alpha::new(&[24, 1000, 70_000, 3 * MIB]);
+    if !th {
+        deep.calloc_sizes = vec![24, 1000, 70_000]; // calloc(3 MiB) is covered by the full alphabet
+    }
+    let deep_depth = depth + if th { 2 } else { 1 };
     let nsh = 64usize;
-    let pre = prefixes(2.min(depth), &sizes, th);
-    let pre_deep = prefixes(2, &deep_sizes, false);
+    let pre = prefixes(2.min(depth), &al);
+    let pre_deep = prefixes(2, &deep);
     let dl = dense_limit(th);
     let mut items = Vec::new();
     for sh in 0..nsh {
         let pre = pre.clone();
         let pre_deep = pre_deep.clone();
-        let sizes = sizes.clone();
-        let deep_sizes = deep_sizes.clone();
+        let al = al.clone();
+        let deep = deep.clone();
         items.push(isolated(format!("hist-{sh}"), move || {
             let mut r = Report::new();
             let mut w = World::new(dl);
@@ -133,7 +155,7 @@ pub fn hist(args: &Args) -> Report {
                 if i % nsh != sh {
                     continue;
                 }
-                for_each_history(p, depth, &sizes, th, &mut |h| {
+                for_each_history(p, depth, &al, &mut |h| {
                     r.eval();
                     r.nontrivial_unique();
                     let c = Case::plain("hist", h.to_vec());
@@ -144,7 +166,7 @@ pub fn hist(args: &Args) -> Report {
                 if i % nsh != sh {
                     continue;
                 }
-                for_each_history(p, deep_depth, &deep_sizes, false, &mut |h| {
+                for_each_history(p, deep_depth, &deep, &mut |h| {
                     r.eval();
                     // longer than every history of the first family, hence distinct from all of them
                     r.nontrivial_unique();
@@ -161,15 +183,15 @@ pub fn hist(args: &Args) -> Report {
     }
     let mut r = run_isolated(items, &args.out, "C03");
     r.rule = format!(
-        "every history of exactly {depth} operations (shorter ones are their prefixes; the oracle runs after every operation) over \
-         malloc(s,a) a in {{8,64,4096}}, calloc(s,{}), realloc(live slot, s), free(live slot) with <= 3 live slots (allocation goes to the lowest free slot), \
-         s in {sizes:?}; plus every history of exactly {deep_depth} operations over the reduced size alphabet {deep_sizes:?}; each run starts from a fresh allocator over an empty \
-         model address space, placement policy T (Linux-like top-down first fit). Each history is generated once; every one is non-trivial (it reaches the allocator).",
-        if th { "a in {8,64,4096}" } else { "8" }
+        "every history of exactly {depth} operations (shorter ones are their prefixes; the oracle runs after every operation) over {} with <= 3 live slots \
+         (an allocation goes to the lowest free slot); plus every history of exactly {deep_depth} operations over the reduced alphabet {}; each run starts from a fresh allocator \
+         over an empty model address space, placement policy T (Linux-like top-down first fit). Each history is generated once; every one is non-trivial (it reaches the allocator).",
+        al.describe(),
+        deep.describe()
     );
     r.bound("depth_full_alphabet", depth);
     r.bound("depth_reduced_alphabet", deep_depth);
-    r.bound("sizes", json!(sizes));
+    r.bound("sizes", json!(al.sizes));
     r.bound("max_live", 3);
     r.bound("dense_pattern_limit_bytes", dl);
     r
@@ -541,13 +563,14 @@ pub fn placement(args: &Args) -> Report {
     let th = args.thorough;
     let dl = dense_limit(th);
     let sizes: Vec<usize> = if th { vec![1000, 65_000, 70_000, MIB, 3 * MIB] } else { vec![1000, 70_000, 3 * MIB] };
+    let al = Alpha::new(&sizes);
     let depth = 3usize;
-    let pre = prefixes(2, &sizes, false);
+    let pre = prefixes(2, &al);
     let nsh = 64usize;
     let mut items = Vec::new();
     for sh in 0..nsh {
         let pre = pre.clone();
-        let sizes = sizes.clone();
+        let al = al.clone();
         items.push(isolated(format!("placement-{sh}"), move || {
             let mut r = Report::new();
             let mut w = World::new(dl);
@@ -555,7 +578,7 @@ pub fn placement(args: &Args) -> Report {
                 if i % nsh != sh {
                     continue;
                 }
-                for_each_history(p, depth, &sizes, false, &mut |h| {
+                for_each_history(p, depth, &al, &mut |h| {
                     if !involves_large(h) {
                         return;
                     }
@@ -652,13 +675,14 @@ pub fn oom(args: &Args) -> Report {
     let th = args.thorough;
     let dl = dense_limit(th);
     let sizes = hist_sizes(false);
+    let al = Alpha::new(&sizes);
     let depth: usize = if th { 4 } else { 3 };
-    let pre = prefixes(2, &sizes, false);
+    let pre = prefixes(2, &al);
     let nsh = 64usize;
     let mut items = Vec::new();
     for sh in 0..nsh {
         let pre = pre.clone();
-        let sizes = sizes.clone();
+        let al = al.clone();
         items.push(isolated(format!("oom-{sh}"), move || {
             let mut r = Report::new();
             let mut w = World::new(dl);
@@ -666,7 +690,7 @@ pub fn oom(args: &Args) -> Report {
                 if i % nsh != sh {
                     continue;
                 }
-                for_each_history(p, depth, &sizes, false, &mut |h| {
+                for_each_history(p, depth, &al, &mut |h| {
                     let c = Case::plain("oom", h.to_vec());
                     oom_family(&mut w, &c, th, &mut r);
                 });
